@@ -325,7 +325,7 @@ fn out_item(f: &Field, expr: &str) -> String {
 }
 
 /// Generates the driver of one definition.
-fn driver(k: usize, variants: &[Vec<Field>], has_clone: bool, has_serde: bool) -> String {
+fn driver(k: usize, variants: &[Vec<Field>], has_clone: bool, has_serde: bool, no_out: bool) -> String {
     let mut s = String::new();
     let nv = variants.len();
     writeln!(s, "// generated by genlab_gen: driver of lab definition {}", k).unwrap();
@@ -429,6 +429,9 @@ fn driver(k: usize, variants: &[Vec<Field>], has_clone: bool, has_serde: bool) -
             let minus: Vec<&Field> = fields.iter().filter(|f| !next_ids.contains(&f.fid)).collect();
             let n = v + 1;
             for (form, full, outk) in [("full_simple", true, false), ("uninit_simple", false, false), ("full_out", true, true), ("uninit_out", false, true)] {
+                if outk && no_out {
+                    continue; // degraded driver: the and-out result type does not have the expected fields
+                }
                 writeln!(s, "        (\"convert_{form}\", {v}) => {{ if let Rec::V{v}(p) = std::mem::replace(&mut st.slots[s], Rec::None) {{").unwrap();
                 writeln!(s, "            let from = p.into_inner();").unwrap();
                 let pf: Vec<&&Field> = plus.iter().filter(|f| full || !f.uninit).collect();
@@ -586,7 +589,7 @@ fn main() {
             "max_size": built.def.max_size(), "max_align": built.def.max_type_align()});
         File::create(format!("{}/d{}_gen.rs", out_dir, k)).unwrap().write_all(code.as_bytes()).unwrap();
         File::create(format!("{}/d{}.json", out_dir, k)).unwrap().write_all(dj.to_string().as_bytes()).unwrap();
-        let drv = driver(k, &variants, frags.iter().any(|f| f == "clone"), frags.iter().any(|f| f == "serde"));
+        let drv = driver(k, &variants, frags.iter().any(|f| f == "clone"), frags.iter().any(|f| f == "serde"), d["no_out"].as_bool().unwrap_or(false));
         File::create(format!("{}/d{}_drv.rs", out_dir, k)).unwrap().write_all(drv.as_bytes()).unwrap();
         writeln!(modrs, "#[path = \"d{k}_drv.rs\"] pub mod d{k};").unwrap();
         writeln!(dispatch_run, "        ({k}, 0) => d{k}::run::<{{ d{k}::gen::MAX_SIZE }}>(ops),\n        ({k}, 1) => d{k}::run::<{{ d{k}::gen::MAX_SIZE + 1 }}>(ops),\n        ({k}, 2) => d{k}::run::<{{ d{k}::gen::MAX_SIZE + 8 }}>(ops),").unwrap();
